@@ -1,5 +1,5 @@
 """C03 — a legal move yields the prescribed successor (effect tables of the four move kinds)."""
-from sa.sym import guards, Engine, show, show_cond, subterms, PathLimit, C, is_const, DEFAULT_FOLD_ONLY
+from sa.sym import guards, assertion_indices, Engine, show, show_cond, subterms, PathLimit, C, is_const, DEFAULT_FOLD_ONLY
 from sa.facts import field_writes
 from .common import *
 from .tables import rows, is_true, is_false, pin
@@ -463,8 +463,11 @@ def r3_en_passant(ctx):
         ep = [a for m, a, u in calls if m == 'push_en_passant_target']
         ctx.ob(rule, name, '%s: ep target cleared' % col, len(ep) == 1 and bb_of(ep[0][1]) == 0,
                found=show(ep[0][1]) if ep else None, expected='EMPTY')
-        ctx.ob(rule, name, '%s: rights preserved' % col, sum(1 for m, _, _ in calls if m == 'preserve_castle_rights') == 1
-               and not any(m == 'lose_castle_rights' for m, _, _ in calls), found=[m for m, _, _ in calls], expected='preserve_castle_rights once')
+        # (losing the empty set of rights is the same stack operation as preserving them)
+        keeps = [m for m, a_, _ in calls if m == 'preserve_castle_rights' or (m == 'lose_castle_rights' and len(a_) > 1 and a_[1] == C(0))]
+        ctx.ob(rule, name, '%s: rights preserved' % col, len(keeps) == 1
+               and not any(m == 'lose_castle_rights' and not (len(a_) > 1 and a_[1] == C(0)) for m, a_, _ in calls), found=[m for m, _, _ in calls],
+               expected='preserve_castle_rights once')
     for c in ('White', 'Black'):
         if c not in seen:
             ctx.ob(rule, name, '%s: Ok path exists' % c, False, found='missing')
@@ -511,7 +514,8 @@ def r4_promotion(ctx):
                puts[0][1] == to and puts[0][2] == promo and puts[0][3] == xc, found=[show(x) for x in puts[0][1:]],
                expected='put(to, promote_to_piece, pawn colour)', why='promotion replaces the pawn by the chosen piece')
     # the inner standard move must be built from the promotion's own squares and capture
-    eng = Engine(ctx.facts, opaque=set(board_methods(ctx.facts)) | {KINDS['standard'] + '::apply'}, log_enter=True)
+    opq_, alias_ = board_api(ctx.facts)
+    eng = Engine(ctx.facts, opaque=opq_ | {KINDS['standard'] + '::apply'}, log_enter=True, call_alias=alias_)
     outs2 = eng.run(name)
     okb = False
     for o in outs2:
@@ -579,10 +583,17 @@ def r7_independence(ctx):
             if o.kind == 'abort':
                 continue
             # assertions (`debug_assert!(board.peek_..() ..)`: the other side panics) are not a dependence of the successor on the value
-            for a, v in guards(outs, o):
-                for s in subterms(a):
-                    if s[0] == 'call' and s[1].startswith(BOARD + '::') and method(s[1]) in READ_ONLY_STATE:
-                        bad.add(('branch', method(s[1])))
+            skip = assertion_indices(outs, o)
+            for i_, (a, v) in enumerate(o.conds):
+                if i_ in skip:
+                    continue
+                hits = [method(s[1]) for s in subterms(a) if s[0] == 'call' and s[1].startswith(BOARD + '::') and method(s[1]) in READ_ONLY_STATE]
+                # a test that only decides whether the position key is re-keyed (`if old_target != new_target { toggle; toggle }`) does
+                # not make the successor depend on it: the other side is the same path up to PositionInfo's hash toggles (C05 decides those)
+                if hits and decides_only(outs, o, i_, lambda p_, e_: e_[0] == 'call' and e_[1].startswith('chess::board::position_info::PositionInfo::'), tag='hash'):
+                    continue
+                for h in hits:
+                    bad.add(('branch', h))
         ctx.ob(rule, name, 'placement/rights/ep arguments independent of clocks, turn, key and repetition state', not bad,
                found=sorted(bad), expected=[], why='the successor position may depend only on the move and the pieces it touches')
     ctx.floor(rule, 'mutator call instances examined', n, 15)
